@@ -263,15 +263,20 @@ Life(t, r, c, nf, form, rel, k, adds, pi) ==
 (* Dimensions of the simulated instrument and of the cal kit, chosen here: *)
 (*   kit    the order in which the kit's parameters are created relative   *)
 (*          to the order of first use ("use" same, "rev" reversed, "hi8"   *)
-(*          first-used created ninth, second-used first, ...): handle      *)
-(*          numbers and order of use are decoupled                         *)
+(*          first-used created ninth, second-used first, ...; "pad" in     *)
+(*          order of use after thirteen entries that stay unused, so the   *)
+(*          handles in use start at sixteen): handle numbers and order of  *)
+(*          use are decoupled                                              *)
 (*   mag    receiver gain 10^mag (magnitude of every reading)              *)
 (*   alev   a/b reference level 10^alev                                    *)
-(*   noise  1: measurement-error model set, readings carry that noise      *)
+(*   noise  > 0: measurement-error model set, readings carry that noise;   *)
+(*          1 one value for all frequencies, 2 per-calibration-frequency   *)
+(*          vectors (NULL frequency vector), 3 own frequency vector; with  *)
+(*          2 and 3 both sigmas vary over frequency                        *)
 With(life, noise, kit, mag, alev) ==
     [life EXCEPT !.noise = noise, !.kit = kit, !.mag = mag, !.alev = alev]
 
-KitOf(v)  == <<"use", "hi8", "rev">>[(v % 3) + 1]
+KitOf(v)  == <<"use", "hi8", "rev", "pad">>[((v + (v \div 4)) % 4) + 1]
 MagOf(v)  == <<0, -4, 0, 6, -6, 3>>[((v \div 2) % 6) + 1]
 ALevOf(v) == <<0, 3, -3>>[((v \div 3) % 3) + 1]
 
@@ -342,7 +347,13 @@ C01Rows(u) ==
 
 (* (the dummy parameter keeps TLC from pre-evaluating the tables that are  *)
 (* not asked for)                                                         *)
-C01Table(u) == C01Rows(u) \cup BadAllocRows(u) \cup ProtocolRows(u)
+(* four-port calibrations in a/b form at high and low reference levels are *)
+(* part of the quick table too                                             *)
+C01Dim4Rows(u) ==
+    IF MaxDim >= 4 THEN {}
+    ELSE {C01Row(t, 4, 4, v) : t \in {"T8", "U8", "E12"}, v \in {4, 6}}
+
+C01Table(u) == C01Rows(u) \cup BadAllocRows(u) \cup ProtocolRows(u) \cup C01Dim4Rows(u)
 
 -----------------------------------------------------------------------------
 (* hostile: calls out of order, every refused and every unclassified       *)
@@ -479,6 +490,16 @@ C17NoisyRows(u) ==
         x \in {y \in {"T8", "U8", "TE10", "UE10", "UE14", "E12"} \X {2, 3} \X {0, 1} :
                  y[2] = 2 \/ (y[1] \in {"UE14", "E12"} /\ MaxDim >= 3)}}
 
+(* all frequencies at once versus one at a time with a frequency-dependent *)
+(* noise model and noisy readings: the joint life gives the model as       *)
+(* per-calibration-frequency vectors (v = 2) or with its own frequency     *)
+(* vector (v = 3), the single-frequency life gives that frequency's values *)
+C17NoisySplitRows(u) ==
+    {LET row == C17RowP(x[1], x[2], x[2], "split", x[3], 1, 2,
+                        IF x[3] = 2 THEN "m" ELSE "ab", "-noisy")
+     IN [name |-> row.name, steps |-> MapLife(row.steps, x[3], "use", 0, 0)] :
+        x \in {y \in Types \X {1, 2} \X {2, 3} : DimsOK(y[1], y[2], y[2])}}
+
 (* four-port calibrations (their recipes hold the sparse multi-port        *)
 (* standards) are part of the quick table for two types with leakage terms *)
 C17SparseRows(u) ==
@@ -523,6 +544,7 @@ C17Table(u) ==
            x \in {y \in Types \X (1..MaxDim) \X (1..MaxDim) :
                      DimsOK(y[1], y[2], y[3]) /\ ApplyAccepts(y[2], y[3])}}
     \cup C17SparseRows(u) \cup C17HashRows(u) \cup C17SharedRows(u) \cup C17NoisyRows(u)
+    \cup C17NoisySplitRows(u)
 
 -----------------------------------------------------------------------------
 (* C20: the standard list of a (type, dims) and its sub-sequences          *)
@@ -538,7 +560,7 @@ C20List(t, r, c) ==
             \o [i \in 1..Len(pairs) |->
                   ThruP(100 + 10 * pairs[i][1] + pairs[i][2], pairs[i][1], pairs[i][2])]
             \o <<LineP(212, 1, 2, "P"), ReflP(11, 1, "S")>>
-            \o (IF p >= 3 THEN <<CouplerP(511, "P")>> ELSE <<ReflP(p * 10 + 2, p, "O")>>)
+            \o (IF p >= 3 THEN <<CouplerP(511, "P")>> ELSE <<LineP(213, 1, 2, "P")>>)
 
 RECURSIVE Fact(_)
 Fact(n) == IF n <= 1 THEN 1 ELSE n * Fact(n - 1)
@@ -620,8 +642,37 @@ C20MinimalRows(u) ==
         x \in {"T8", "U8", "TE10", "UE10", "UE14", "E12"}
               \X (1..(IF MaxDim < 3 THEN MaxDim ELSE 3)) \X {4, 6, 10, 15} \X {0, 1}}
 
+(* Two complete standards made of kit parameters and one standard with    *)
+(* explicit predefined zeros between its ports (reflects entered as a      *)
+(* line / mapped matrix), every order, solve after each addition, for every *)
+(* kit class (sparse handle numbers included).  n = 3: a third port with   *)
+(* its own reflects and throughs first.                                    *)
+C20KitRow(t, n, kit, o) ==
+    LET f1   == AddStep(LineP(212, 1, 2, "P"), "mapped", <<1, 2>>, FALSE, n, n)
+        f2   == AddStep(LineP(213, 1, 2, "P"), "line", <<2, 1>>, FALSE, n, n)
+        f3   == AddStep(Refl2P(91, 1, 2, "S", "O"),
+                        IF o % 2 = 0 THEN "mapped" ELSE "line", <<1, 2>>, FALSE, n, n)
+        base == IF n = 2 THEN <<>>
+                ELSE [j \in 1..3 |-> Plain(t, n, n, ReflP(30 + j, 3, <<"S", "O", "Z">>[j]))]
+                     \o <<Plain(t, n, n, ThruP(113, 1, 3)), Plain(t, n, n, ThruP(123, 2, 3))>>
+        three == <<f1, f2, f3>>
+        perm == Unrank(<<1, 2, 3>>, 3, o)
+        adds == TLCEval(base \o [i \in 1..3 |-> three[perm[i]]])
+    IN [name |-> Name("c20-kit-" \o kit, t, n, n, o),
+        steps |-> <<With(Life(t, n, n, 2, IF o % 2 = 0 THEN "m" ELSE "ab", "none", 0,
+                              adds, <<>>), 0, kit, 0, 0),
+                    Op("solve")>>
+                  \o Concat([i \in 1..Len(adds) |->
+                               <<adds[i], Op("solve"), Op("addcal"), Apply(i)>>])]
+
+C20KitRows(u) ==
+    {C20KitRow(x[1], x[2], x[3], x[4]) :
+        x \in {y \in {"T8", "U8", "TE10", "UE10", "UE14", "E12"} \X {2, 3}
+                      \X {"use", "hi8", "rev", "pad"} \X (0..5) :
+                 y[2] <= MaxDim /\ (y[2] = 2 \/ y[3] = "pad")}}
+
 C20Table(u) ==
-    C20DegenerateRows(u) \cup C20MinimalRows(u) \cup
+    C20DegenerateRows(u) \cup C20MinimalRows(u) \cup C20KitRows(u) \cup
     UNION {{C20Row(x[1], x[2], x[3], idx) :
                idx \in {i \in 0..(C20Count(x[1], x[2], x[3]) - 1) :
                            i % Stride = (x[2] + 2 * x[3]) % Stride}} :
